@@ -390,6 +390,16 @@ def and_flag_edges(fn, call):
     true edge taken  => the call returned true;   false edge taken => the call returned false or was not reached."""
     te, fe = true_edge(fn, call), false_edge(fn, call)
     if te and fe:
+        # `matches!(slot, Some(x) if test(x))` bound to a name / returned by a helper: the test has its own switch, but the
+        # decision that is used afterwards is the recorded flag -- true only behind the test's true edge, false on its false
+        # edge *and* where the test was never reached (None).  Prefer that switch.
+        for site, t, local, neg, ds in fn.flag_switches():
+            trues = [d for d in ds if d[1] == "assign" and d[2]["rv"]["k"] == "use" and d[2]["rv"]["op"].get("k") == "const" and d[2]["rv"]["op"].get("val") == "true"]
+            others = [d for d in ds if d not in trues]
+            if not trues or not all(d[1] == "assign" and d[2]["rv"]["k"] == "use" and d[2]["rv"]["op"].get("k") == "const" and d[2]["rv"]["op"].get("val") == "false" for d in others):
+                continue
+            if all(fn.edge_dominates_plain(te, d[0]) for d in trues) and not fn.edge_dominates_plain(te, site):
+                return fn.edge_of(site, "false" if neg else "true"), fn.edge_of(site, "true" if neg else "false")
         return te, fe
     rl = call.dest[0]
     for site, t in fn.switches():
